@@ -65,11 +65,11 @@ def run_case(rs, ctx):
     binz = gen.pick(rs, [None, "thr_inside", "thr_three"]) if l == "ts" else None
     cfg = gen.gen_cfg(rs, l, p, labels=gen.pick(rs, ["int", "str", "float"]), n_arms=int(rs.integers(2, 5)),
                       binarizer=binz, with_probs=bool(rs.integers(4) == 0))
-    if rs.integers(3) == 0 and not (p == "tree" and l in ("ts", "eg")):
+    if ctx.index % 3 == 1 and not (p == "tree" and l in ("ts", "eg")):
         # worker threads for training and queries before the copy is taken (whatever a threaded call leaves on the bandit - pools,
         # locks, per-thread scratch - has to survive copying and pickling); TreeBandit + Thompson / EpsilonGreedy stay
         # single-threaded: their continuation is schedule dependent on both twins (known finding K2)
-        cfg["n_jobs"], cfg["backend"] = int(gen.pick(rs, [2, 3])), "threading"
+        cfg["n_jobs"], cfg["backend"] = 2 + (ctx.index // 3) % 2, "threading"
         ctx.count("threaded_bandits")
     nf = int(gen.pick(rs, [1, 2, 3]))
     sh = gen.Shadow(cfg, nf)
